@@ -45,11 +45,9 @@ def run(prop, tier, seed, workdir):
     r = tlc.model_check("Tok", cfg, workdir, workers=16, dump=True)
     if r["violated"] or not r["ok"]:
         raise tlc.TLCError("Tok model violates C14: %s\n%s" % (r["violated"], r["out"][-2000:]))
-    states = tlc.parse_dump(r["dump_path"], var="s")
-    os.unlink(r["dump_path"])
     sessions = []
     seen = set()
-    for st in states:
+    for st in tlc.iter_dump(r["dump_path"], var="s"):      # streamed: the dump of the thorough scope is several GB
         if not (st.get("err") or st.get("nulls") == 2):
             continue
         key = (tuple(st["buf0"]), st["dmax0"], tuple(st["calls"]))
@@ -59,6 +57,7 @@ def run(prop, tier, seed, workdir):
         # one more call after the end of the model behaviour: NULL forever
         calls = [DELIMS[c] for c in st["calls"]] + [DELIMS[st["calls"][-1]]]
         sessions.append((st["buf0"], st["dmax0"], calls))
+    os.unlink(r["dump_path"])
     nmodel = len(sessions)
     if tier == "quick" and len(sessions) > 12000:
         sessions = rnd.sample(sessions, 12000)
